@@ -81,4 +81,32 @@ theorem locTree_chain (q : List Step) : ∀ (s : Shape) (v : Val) (tq : Shape) (
           simp only [List.cons_append, chainWith, h1', locTree, ht, htp]
       · cases h1
 
+theorem resolve_app (q : List Step) : ∀ (s : Shape) (v : Val) (tq : Shape) (uq : Val) (r : List Step),
+    resolve s v q = .ok (tq, uq) →
+    resolve s v (q ++ r) = resolve tq uq r ∧ offsetOf s v (q ++ r) = offsetOf s v q + offsetOf tq uq r := by
+  induction q with
+  | nil => intro s v tq uq r h; simp [resolve] at h; obtain ⟨rfl, rfl⟩ := h; simp [offsetOf]
+  | cons st q ih =>
+    intro s v tq uq r h
+    simp only [resolve] at h
+    cases h1 : resolve1 s v st with
+    | error e => simp [h1] at h
+    | ok tu =>
+      obtain ⟨t1, u1⟩ := tu
+      simp only [h1] at h
+      obtain ⟨a, c⟩ := ih t1 u1 tq uq r h
+      simp only [List.cons_append, resolve, offsetOf, h1, a, c]
+      exact ⟨trivial, by omega⟩
+
+/-- Every live accessor of the fresh chain holds the fresh chain of its own sub-value. -/
+theorem locTree_chainOf (s : Shape) (v : Val) (q r : List Step) (tq : Shape) (uq : Val) (t : Shape) (u : Val)
+    (b : Nat) (g : Good s v) (hq : resolve s v q = .ok (tq, uq)) (hr : resolve tq uq r = .ok (t, u)) :
+    ∃ tp, locTree s (chainOf s v b (q ++ r)) q = some (tp, tq, chainOf tq uq (b + offsetOf s v q) r) := by
+  obtain ⟨a, c⟩ := resolve_app q s v tq uq r hq
+  unfold chainOf
+  rw [a, hr, c]
+  simp only []
+  rw [← Nat.add_assoc]
+  exact locTree_chain q s v tq uq b r _ g hq
+
 end Unsized.Ptr
